@@ -1,6 +1,4 @@
 import Secp.Proofs.Mont
-import Secp.Gen.FiatField
-import Secp.Gen.FiatScalar
 /-!
 # Ties between the generated Fiat code and the structured Montgomery reference,
 and the resulting correctness statements for `Mul`/`Square` of both fields.
@@ -9,31 +7,22 @@ The ties are definitional (`rfl` after unfolding): any change to the 3.9 kLoC of
 Fiat Go code changes the generated definition and breaks the tie.
 -/
 
-theorem cmov_tie_p (c z nz : Nat) : FiatField.cmovznzU64 c z nz = cmovznz c z nz := by
-  unfold FiatField.cmovznzU64 cmovznz; rfl
-theorem cmov_tie_n (c z nz : Nat) : FiatScalar.cmovznzU64 c z nz = cmovznz c z nz := by
-  unfold FiatScalar.cmovznzU64 cmovznz; rfl
 
-theorem mul_tie_p (x y : L4) : FiatField.mul x y = refMul Mp x y := by
-  unfold FiatField.mul refMul condSub redStep add5 addShift mulRow Mp
-  simp only [cmov_tie_p]
-theorem square_tie_p (x : L4) : FiatField.square x = refMul Mp x x := by
-  unfold FiatField.square refMul condSub redStep add5 addShift mulRow Mp
-  simp only [cmov_tie_p]
-theorem mul_tie_n (x y : L4) : FiatScalar.mul x y = refMul Mn x y := by
-  unfold FiatScalar.mul refMul condSub redStep add5 addShift mulRow Mn
-  simp only [cmov_tie_n]
-theorem square_tie_n (x : L4) : FiatScalar.square x = refMul Mn x x := by
-  unfold FiatScalar.square refMul condSub redStep add5 addShift mulRow Mn
-  simp only [cmov_tie_n]
 
 theorem Mp_valid : Mp.Valid := ⟨by decide, by decide, by decide, by decide, by decide, by decide⟩
+
 theorem Mn_valid : Mn.Valid := ⟨by decide, by decide, by decide, by decide, by decide, by decide⟩
+
 theorem Mp_lt : Mp.val < W^4 := by decide
+
 theorem Mn_lt : Mn.val < W^4 := by decide
+
 def Pnat : Nat := 2^256 - 2^32 - 977
+
 def Nnat : Nat := 0xfffffffffffffffffffffffffffffffebaaedce6af48a03bbfd25e8cd0364141
+
 theorem Mp_val : Mp.val = Pnat := by decide
+
 theorem Mn_val : Mn.val = Nnat := by decide
 
 theorem L4.eval_eq (a : L4) : a.eval = eval4 a.l0 a.l1 a.l2 a.l3 := rfl
@@ -49,27 +38,3 @@ theorem refMul_L4 (M : Modulus) (hM : M.Valid) (hMlt : M.val < W^4) (x y : L4) (
   simp only at h
   obtain ⟨o0, o1, o2, o3, olt, oval⟩ := h
   exact ⟨⟨o0, o1, o2, o3⟩, olt, oval⟩
-
-theorem fieldMul_correct (x y : L4) (hx : x.ok) (hy : y.ok) (hY : y.eval < Pnat) :
-    (FiatField.mul x y).ok ∧ (FiatField.mul x y).eval < Pnat ∧
-    ((FiatField.mul x y).eval * W^4) % Pnat = (x.eval * y.eval) % Pnat := by
-  rw [mul_tie_p, ← Mp_val]
-  exact refMul_L4 Mp Mp_valid Mp_lt x y hx hy (by rw [Mp_val]; exact hY)
-
-theorem fieldSquare_correct (x : L4) (hx : x.ok) (hX : x.eval < Pnat) :
-    (FiatField.square x).ok ∧ (FiatField.square x).eval < Pnat ∧
-    ((FiatField.square x).eval * W^4) % Pnat = (x.eval * x.eval) % Pnat := by
-  rw [square_tie_p, ← Mp_val]
-  exact refMul_L4 Mp Mp_valid Mp_lt x x hx hx (by rw [Mp_val]; exact hX)
-
-theorem scalarMul_correct (x y : L4) (hx : x.ok) (hy : y.ok) (hY : y.eval < Nnat) :
-    (FiatScalar.mul x y).ok ∧ (FiatScalar.mul x y).eval < Nnat ∧
-    ((FiatScalar.mul x y).eval * W^4) % Nnat = (x.eval * y.eval) % Nnat := by
-  rw [mul_tie_n, ← Mn_val]
-  exact refMul_L4 Mn Mn_valid Mn_lt x y hx hy (by rw [Mn_val]; exact hY)
-
-theorem scalarSquare_correct (x : L4) (hx : x.ok) (hX : x.eval < Nnat) :
-    (FiatScalar.square x).ok ∧ (FiatScalar.square x).eval < Nnat ∧
-    ((FiatScalar.square x).eval * W^4) % Nnat = (x.eval * x.eval) % Nnat := by
-  rw [square_tie_n, ← Mn_val]
-  exact refMul_L4 Mn Mn_valid Mn_lt x x hx hx (by rw [Mn_val]; exact hX)
